@@ -2,11 +2,16 @@
 import SquidModel.Properties.C12
 #print axioms SquidModel.C12.expired_entry_contacts_origin
 #print axioms SquidModel.C12.explicit_lifetime_passed_contacts_origin_partial
+#print axioms SquidModel.C12.explicit_lifetime_passed_contacts_origin_delay
+#print axioms SquidModel.C12.lifetime_passed_after_revalidations_partial
 #print axioms SquidModel.C12.date_older_than_24h_counterexample
 #print axioms SquidModel.C12.undated_or_future_date_contacts_origin
 #print axioms SquidModel.C12.revalidate_flag_contacts_origin
 #print axioms SquidModel.C12.mustrevalidate_stale_contacts_origin
+#print axioms SquidModel.C12.mustrevalidate_of_first_reply_after_revalidations
+#print axioms SquidModel.C12.mustrevalidate_from_304_counterexample
 #print axioms SquidModel.C12.maxage0_or_nocache_contacts_origin_partial
 #print axioms SquidModel.C12.immutable_counterexample
 #print axioms SquidModel.C12.max_stale_bounds_staleness
 #print axioms SquidModel.C12.served_implies_unexpired
+#print axioms SquidModel.C12.shift_invariant
